@@ -2513,3 +2513,44 @@ pub async fn measure_native_with_env(scratch: &str) -> Vec<(String, Value)> {
     acc.abort();
     out
 }
+
+/// C20: the configured DnsResolver decides where a domain URL connects (address AND port); the URL's
+/// port is only part of the authority the server sees.
+pub async fn measure_resolver() -> Vec<(String, Value)> {
+    let mut out = Vec::new();
+    let id = Identity::self_signed(["localhost", "svc.test"]).expect("identity");
+    let cfg = ServerConfig::builder().with_bind_address("127.0.0.1:0".parse().unwrap()).with_identity(id).build();
+    let Ok(ep) = Endpoint::server(cfg) else { return out };
+    let addr: SocketAddr = format!("127.0.0.1:{}", ep.local_addr().unwrap().port()).parse().unwrap();
+    let (tx, mut rx) = tokio::sync::mpsc::channel::<String>(4);
+    let acc = tokio::spawn(async move {
+        loop {
+            let inc = ep.accept().await;
+            let tx = tx.clone();
+            tokio::spawn(async move {
+                if let Ok(req) = inc.await {
+                    let _ = tx.send(req.authority().to_string()).await;
+                    if let Ok(c) = req.accept().await {
+                        c.closed().await;
+                    }
+                }
+            });
+        }
+    });
+    for (name, url) in [("explicit_port", "https://svc.test:9/x"), ("default_port", "https://svc.test/")] {
+        let client = Endpoint::client(
+            ClientConfig::builder()
+                .with_bind_address("127.0.0.1:0".parse().unwrap())
+                .with_no_cert_validation()
+                .dns_resolver(FixedDns(addr))
+                .build(),
+        )
+        .expect("client");
+        let ok = matches!(timeout(Duration::from_secs(4), client.connect(url)).await, Ok(Ok(_)));
+        let seen = if ok { timeout(Duration::from_secs(2), rx.recv()).await.ok().flatten().unwrap_or_default() } else { String::new() };
+        out.push((format!("{name}_connected"), json!(ok)));
+        out.push((format!("{name}_authority"), jbytes(seen.as_bytes())));
+    }
+    acc.abort();
+    out
+}
